@@ -8,6 +8,7 @@ import (
 	"fmt"
 	"os"
 	"sort"
+	"strings"
 	"sync"
 	"time"
 )
@@ -27,9 +28,9 @@ type Job struct {
 	// Candidates: replay objects to evaluate in order (mode candidates)
 	Candidates []json.RawMessage `json:"candidates,omitempty"`
 	// StopAtFirst: in candidates mode stop at the first candidate showing class WantClass
-	WantClass string `json:"want_class,omitempty"`
-	Samples   int    `json:"samples"` // how many complete runs to write out as samples
-	Scratch   string `json:"scratch"` // directory for files (tmpfs)
+	WantClass string            `json:"want_class,omitempty"`
+	Samples   int               `json:"samples"` // how many complete runs to write out as samples
+	Scratch   string            `json:"scratch"` // directory for files (tmpfs)
 	Extra     map[string]string `json:"extra,omitempty"`
 }
 
@@ -231,4 +232,15 @@ func StreamReplay(job *Job, replay func() interface{}) func(uint32) {
 	}
 	so.Line(map[string]interface{}{"t": "replay", "replay": replay()})
 	return func(x uint32) { so.Line(map[string]interface{}{"t": "tape", "x": x}) }
+}
+
+// IsKnown reports whether a violation class is listed as a known finding for this job
+// (the driver passes the list; engines then count the occurrence and carry on).
+func (j *Job) IsKnown(class string) bool {
+	for _, k := range strings.Split(j.Extra["known"], ",") {
+		if k != "" && k == class {
+			return true
+		}
+	}
+	return false
 }
